@@ -119,6 +119,8 @@ func (m *isMachine) step(x *hx, o op) {
 			seen[k] = true
 		}
 		m.model = map[isIndex]*isSlot{}
+		holdSlice(x, "Clear-keys", ks, isIndex(1<<30))
+		holdSlice(x, "Clear-storages", ss, nil)
 	case "ForEach":
 	}
 	if o.N == "GetCreate" && slot == nil && x.ok() {
